@@ -1,12 +1,14 @@
 package fun
 
 import (
+	"context"
 	"errors"
 	"fmt"
 	"io"
 	"runtime"
 
 	"github.com/tychoish/fun/ers"
+	"github.com/tychoish/fun/ft"
 	"github.com/tychoish/fun/intish"
 )
 
@@ -54,6 +56,11 @@ type WorkerGroupConf struct {
 	// threads. `erc.Collector.Resolve` suffices when collecting
 	// with an erc.Collector.
 	ErrorResolver func() error
+
+	// abort, when set by the operation running the worker group,
+	// is called when an error means that processing cannot
+	// continue, so that the group's other workers stop as well.
+	abort context.CancelFunc
 }
 
 // Validate ensures that the configuration is valid, and returns an
@@ -88,6 +95,7 @@ func (o WorkerGroupConf) CanContinueOnError(err error) bool {
 	switch {
 	case hadPanic && !o.ContinueOnPanic:
 		o.ErrorHandler(err)
+		ft.SafeCall(o.abort)
 		return false
 	case hadPanic && o.ContinueOnPanic:
 		o.ErrorHandler(err)
@@ -106,6 +114,7 @@ func (o WorkerGroupConf) CanContinueOnError(err error) bool {
 		return false
 	default:
 		o.ErrorHandler(err)
+		ft.WhenCall(!o.ContinueOnError, func() { ft.SafeCall(o.abort) })
 		return o.ContinueOnError
 	}
 }
